@@ -72,21 +72,31 @@ theorem lin_bind10 {α β : Type} {m : Rd α} {f : α → Rd β} {c2 : Nat}
     (hm : Lin 1 0 m) (hf : ∀ a, Lin 0 c2 (f a)) : Lin 1 0 (m >>= f) :=
   lin_bind hm hf (Nat.zero_le _)
 
-/-- a fixed-format read of at least one byte -/
-theorem lin_relativeUnpack (fmt : List Char) (h : fmtSize fmt ≠ some 0) :
+/-- one call costs at most one unit or the bytes it slices -/
+theorem tick_le (μ : Measure) (n : Nat) : tick μ n ≤ max 1 n := by
+  cases μ <;> simp [tick] <;> omega
+
+theorem tick_zero_le (μ : Measure) : tick μ 0 ≤ 1 := by
+  cases μ <;> simp [tick]
+
+/-- a fixed-format read of at least one byte (under either measure) -/
+theorem lin_relativeUnpack [m : HasMeasure] (fmt : List Char) (h : fmtSize fmt ≠ some 0) :
     Lin 0 1 (relativeUnpack fmt) := by
   intro d c k hc
   unfold relativeUnpack
+  have t0 := tick_zero_le m.μ
   cases hs : fmtSize fmt with
-  | none => simp
+  | none => simp; omega
   | some s =>
     have : 1 ≤ s := by rcases s with _ | s; exact absurd hs h; omega
+    have ts := tick_le m.μ s
     simp only
     by_cases hlt : d.length < c + s <;> simp [hlt] <;> omega
 
-theorem lin_relativeUnpackN (ch : Char) (n : Int) : Lin 1 0 (relativeUnpackN ch n) := by
+theorem lin_relativeUnpackN [m : HasMeasure] (ch : Char) (n : Int) : Lin 1 0 (relativeUnpackN ch n) := by
   intro d c k hc
   unfold relativeUnpackN
+  have t0 := tick_zero_le m.μ
   by_cases hn : n < 0
   · simp [hn]; omega
   · simp only [hn, ↓reduceIte]
@@ -94,24 +104,29 @@ theorem lin_relativeUnpackN (ch : Char) (n : Int) : Lin 1 0 (relativeUnpackN ch 
     | none => simp; omega
     | some w =>
       simp only
+      have ts := tick_le m.μ (n.toNat * w)
       by_cases hlt : d.length < c + n.toNat * w <;> simp [hlt] <;> omega
 
-theorem lin_readLenBytes (w : Nat) (hw : 1 ≤ w) : Lin 0 1 (readLenBytes w) := by
+theorem lin_readLenBytes [m : HasMeasure] (w : Nat) (hw : 1 ≤ w) : Lin 0 1 (readLenBytes w) := by
   intro d c k hc
   unfold readLenBytes
+  have t0 := tick_zero_le m.μ
+  have tw := tick_le m.μ w
   by_cases h1 : d.length < c + w
-  · simp [h1]
+  · simp [h1]; omega
   · simp only [h1, ↓reduceIte]
     by_cases h2 : (toSigned w (beNat (slice d c w)) == -1) = true
     · simp [h2]; omega
     · simp only [h2, Bool.false_eq_true, ↓reduceIte]
       by_cases h3 : toSigned w (beNat (slice d c w)) < 0
-      · simp [h3]
+      · simp [h3]; omega
       · simp only [h3, ↓reduceIte]
-        by_cases h4 : d.length < c + w + (toSigned w (beNat (slice d c w))).toNat <;> simp [h4] <;> omega
+        generalize (toSigned w (beNat (slice d c w))).toNat = n
+        have tn := tick_le m.μ (w + n)
+        by_cases h4 : d.length < c + w + n <;> simp [h4] <;> omega
 
-theorem lin_readShortBytes : Lin 0 1 readShortBytes := lin_readLenBytes 2 (by omega)
-theorem lin_readIntString : Lin 0 1 readIntString := lin_readLenBytes 4 (by omega)
+theorem lin_readShortBytes [HasMeasure] : Lin 0 1 readShortBytes := lin_readLenBytes 2 (by omega)
+theorem lin_readIntString [HasMeasure] : Lin 0 1 readIntString := lin_readLenBytes 4 (by omega)
 
 theorem lin_decodeText (valid : List UInt8 → Bool) (o : Option (List UInt8)) :
     Lin 0 0 (decodeText valid o) := by
@@ -122,10 +137,10 @@ theorem lin_decodeText (valid : List UInt8 → Bool) (o : Option (List UInt8)) :
     · exact lin_pure _
     · exact lin_fail _
 
-theorem lin_readShortAscii : Lin 0 0 readShortAscii :=
+theorem lin_readShortAscii [HasMeasure] : Lin 0 0 readShortAscii :=
   lin_bind00 lin_readShortBytes (fun _ => lin_decodeText _ _)
 
-theorem lin_readShortText : Lin 0 0 readShortText :=
+theorem lin_readShortText [HasMeasure] : Lin 0 0 readShortText :=
   lin_bind00 lin_readShortBytes (fun _ => lin_decodeText _ _)
 
 /-- a loop whose body never takes a debit costs at most twice what it consumes, whatever the count -/
